@@ -242,6 +242,17 @@ def main():
                 known_hits.append((k, f))
             else:
                 violations.append(f)
+    # mechanical assumption scans (tools/scan.py)
+    scan_report = []
+    try:
+        import scan as _scan
+        for nm, fn in _scan.SCANS.get(pid, []):
+            ok_, det = fn()
+            scan_report.append({'scan': nm, 'ok': ok_, 'details': det})
+            if not ok_:
+                undecided.append('assumption scan %s failed (the proof is only valid under it): %s' % (nm, '; '.join(det)[:300]))
+    except Exception as e:
+        undecided.append('assumption scan crashed: %s' % e)
     # Kani part
     kani_functions = []
     for kr in kani_results:
@@ -335,6 +346,7 @@ def main():
         'explanation': info['explanation'],
         'known_findings_hit': [k['what_fails'] for k, _ in known_hits],
         'kani_twin_decisions': twin_notes,
+        'assumption_scans': scan_report,
         'undecided': undecided,
         'evaluations': max(obligations, 1),
         'distinct_nontrivial': max(len(functions), 2),
